@@ -377,3 +377,21 @@ def run(R):
         is_ce_dc = lambda x: is_call(x, name='downcast_ref') and any('ConnectError' in g for g in (x[4].get('ga') or []))
         oku = any(any(guard_is_some(tm, vals, is_ce_dc) for s, vals, tm in m_.edge_guards(bb)) for m_, bb, t in un)
         R.check(oku, 'C14.R5', 'connect-error->unavailable', site(fs), 'Status::unavailable behind the ConnectError downcast: %r' % oku)
+
+    # ---------------------------------------------------------------- R6 connection attempts are bounded by connect_timeout
+    R.describe('C14.R6', 'every connector built for dialing an Endpoint carries the configured connect_timeout (set on the HttpConnector in http_connector(), or by a TimeoutConnector wrapped around it at every site that builds one): a silent peer fails the attempt instead of hanging the call')
+    with R.guard('C14.R6'):
+        hc = tonic.body('channel::endpoint::Endpoint::http_connector')
+        R.saw(hc)
+        def sets_timeout(body_):
+            return any(mentions_field(body_.origin(t_['args'][1]), 'connect_timeout') or mentions_field(resolve_env(tonic, body_, body_.origin(t_['args'][1])), 'connect_timeout')
+                       for bb_, t_ in body_.calls(name='set_connect_timeout') if len(t_['args']) > 1)
+        inside = sets_timeout(hc)
+        sites = [(bd, bb, t) for bd, bb, t in call_sites_in_crate(tonic, pat='Endpoint::http_connector')]
+        R.floor('C14.R6', 'http_connector call sites', len(sites), 2)
+        for bd, bb, t in sites:
+            fam_ = family(tonic, bd)
+            oks = inside or any(sets_timeout(m_) for m_ in fam_)
+            R.check(oks, 'C14.R6', 'connect-timeout-applied:%s' % re.sub(r'(::\{closure#\d+\})+$', '', short(bd.path)).split('::')[-1], site(bd, bb),
+                    'the connector built here is bounded by self.connect_timeout (set in http_connector(): %r; set at this site: %r)' % (inside, oks and not inside))
+
